@@ -3,14 +3,14 @@ CONSTANTS
   MaxH = 10
   Page = 3
   TSet = {0}
-  RSet = {}
-  RUB = FALSE
+  RSet = {3, 4, 5, 6, 7, 8}
+  RUB = TRUE
   MTB = 1
   GCP = 1
   MaxCrash = 1
-  MaxReset = 1
-  Dev = {"ResetKeepsLRU"}
-  Depth = 30
-INVARIANT NoBad
+  MaxReset = 0
+  Dev = {"FixV1"}
+  Depth = 4
+INVARIANT AllBad
 CONSTRAINT Short
 CHECK_DEADLOCK FALSE
